@@ -126,7 +126,12 @@ TrTsRound ==
   /\ IF R.kind = "start"
        THEN tsStart' = Put(tsStart, R.tid, R.value) /\ UNCHANGED tsEnd
        ELSE tsEnd' = Put(tsEnd, R.tid, R.value) /\ UNCHANGED tsStart
-  /\ UNCHANGED <<sc, phase, p, st, initStart, cnt, snap, calls, rounds, panicSeen, bad, lastSize, curCnt, expCnt, expAl>>
+  \* a thread starts another sample although the round it already sampled in has not been
+  \* closed: the elapsed time was not brought up to date and the stop rule not evaluated
+  /\ bad' = bad \cup Flag(R.kind = "start" /\ R.tid \in DOMAIN tsStart /\ ~panicSeen,
+                          IF st.mode = "tune" THEN "C04:tuning_round_not_charged_to_the_time_budget"
+                          ELSE "C04:round_without_stop_test")
+  /\ UNCHANGED <<sc, phase, p, st, initStart, cnt, snap, calls, rounds, panicSeen, lastSize, curCnt, expCnt, expAl>>
 
 TrSnapshot ==
   /\ Is("tally_snapshot")
